@@ -236,6 +236,9 @@ impl Ctx {
                 let nes: Vec<(u32, u32)> = self.pc.iter().filter_map(|l| if let crate::ctx::Lit::Ne(x, y) = l { Some((*x, *y)) } else { None }).collect();
                 for w in 0..self.worlds.len() {
                     for (x, y) in nes.iter() {
+                        if self.ne_ignore.contains(&(*x, *y)) {
+                            continue;
+                        }
                         if self.eval(w, *x) == self.eval(w, *y) {
                             ok = false;
                         }
